@@ -90,6 +90,24 @@ def handle : List String → Option String
         if fragile eps (pre3 mode T csS csD rnd v0 v1 v2) then "?"
         else if csS.valid p then toString ((p.1 * csS.n1 + p.2.1) * csS.n2 + p.2.2) else "-1"
       pure (s!"{csD.n0} {csD.n1} {csD.n2} | " ++ " ".intercalate cells)) rest
+  | "fitfold" :: rest => run (do
+      -- fitfold <precondition> t'x t'y σ ang n (sx sy)*n (dx dy)*n
+      --   -> folded translation | objective of the identity start on the (shifted) pairs | folded map applied to the sources
+      let pre ← P.bool; let t' ← pV2; let σ ← P.rat; let ang ← P.rat
+      let n ← P.nat; let src ← P.rep pV2 n; let dst ← P.rep pV2 n; P.done
+      let p : V2 Rat := if pre then precond2 (n : Rat) src dst else ⟨0, 0⟩
+      let T := fit2 pre (n : Rat) (fun _ => (t', σ, cosT ang, sinT ang)) src dst
+      let start := fitObjective2 (Affine2.mk' ⟨0, 0⟩ 1 1 0) ((src.map fun x => V2.add x p).zip dst)
+      pure (showV2s [T.t] ++ " | " ++ showRat start ++ " | " ++ showV2s (src.map T.call))) rest
+  | "fitfold3" :: rest => run (do
+      let pre ← P.bool; let t' ← pV3; let σ ← P.rat; let fs ← P.list pFactor
+      let n ← P.nat; let src ← P.rep pV3 n; let dst ← P.rep pV3 n; P.done
+      let p : V3 Rat := if pre then precond3 (n : Rat) src dst else ⟨0, 0, 0⟩
+      let R := rotation fs
+      let t := if pre then foldBack3 t' σ R p else t'
+      let T : Affine3 Rat := ⟨t, σ, R, rotationInv fs⟩
+      let start := fitObjective3 ⟨⟨0, 0, 0⟩, 1, M3.one, M3.one⟩ ((src.map fun x => V3.add x p).zip dst)
+      pure (showV3s [T.t] ++ " | " ++ showRat start ++ " | " ++ showV3s (src.map T.call))) rest
   | "ctmeta" :: rest => run (do
       -- ctmeta kind srcdims(2) srcorigin(2) <n> others.. dstdims(2) dstorigin(2) -> kind | dimensions | origin | others
       let kind ← P.nat; let sd ← P.rep P.rat 2; let so ← P.rep P.rat 2; let oth ← P.list P.nat
